@@ -183,6 +183,10 @@ func (this *contractExecutor) Execute(transaction *types.Transaction, header *ty
 		this.logger.Tracef("After execute contract call[%s]! result:%v,leftOverGas: %d,error:%v", transaction.Hash.String(), result, leftOverGas, err)
 	}
 
+	if common.IsProposal013() {
+		// logs of reverted inner frames are not logs of this transaction: report what the state kept
+		logs = accountdb.GetLogs(transaction.Hash)
+	}
 	context["logs"] = logs
 	if common.IsProposal015() {
 		gasUsed := gasLimit - leftOverGas
